@@ -670,6 +670,11 @@ class Analysis:
                 from .poly import mk_min
                 cs.no_effects = True
                 return ("I", mk_min(a + b, Poly.atom(("umax",))))  # min(a + b, usize::MAX); every usize quantity is <= umax (poly axiom)
+        if fn == "core::num::<impl usize>::div_ceil" and len(args) == 2:
+            a_, b_ = self.as_poly(args[0]), self.as_poly(args[1])
+            if a_ is not None and b_ is not None and b_.is_const() and b_.const_value() == 2:
+                cs.no_effects = True
+                return ("I", Poly.atom(("shr1", a_)) + Poly.atom(("and1", a_)))  # ceil(a / 2) = (a >> 1) + (a & 1)
         if fn in ("core::ptr::from_ref", "core::ptr::from_mut") and args and args[0][0] == "P":
             cs.no_effects = True
             return args[0]
